@@ -208,6 +208,12 @@ def to_term(v: Any) -> T.Term:
     if isinstance(v, dict):
         return ("dict", tuple(sorted(((to_term(k), to_term(x)) for k, x in v.items()), key=repr)))
     if isinstance(v, (set, frozenset)):
+        whole = [x for x in v if isinstance(x, tuple) and len(x) == 2 and x[0] == "allof"]          # s.update(<symbolic collection>): all of its elements
+        if whole:
+            rest = [x for x in v if x not in whole]
+            if len(whole) == 1 and not rest:
+                return ("set", whole[0][1])          # the form set(<collection>) has
+            return ("setunion", tuple(sorted([w[1] for w in whole] + ([("set", tuple(sorted((to_term(x) for x in rest), key=repr)))] if rest else []), key=repr)))
         return ("set", tuple(sorted((to_term(x) for x in v), key=repr)))
     if isinstance(v, Frame):
         return ("frame", v.ctx())
